@@ -16,6 +16,7 @@ RULE = ("dyadic refinement trees (midpoint splits; uniform/one-sided/graded/comp
         "GlobalRombergGrid / GlobalBalancedRombergGrid wrappers with cache on/off. Oracle: weight count, zeroth and first moment, "
         "Legendre exactness up to 2m+1 (2m-1 balanced) on complete grids of depth m, full-tree invariant, cache transparency. "
         "distinct = digest(variant, level sequence, interval); non-trivial = non-complete tree or depth>=2")
+RULE += (" " + 'The observed set_grid is preceded by 0..2 other trees (mirror image of the same size, or unrelated) set and used on the SAME object, and integrate() is called before or after get_weights().')
 REQUIRED = ["weight_count", "weights_sum_to_length", "linear_exact", "complete_grid_order", "balanced_weights_moments",
             "balanced_complete_order", "full_tree_superset", "full_tree_zero_or_two_children", "wrapper_cache_transparent",
             "integrate_equals_weighted_sum"]
